@@ -315,6 +315,11 @@ func (cs *autoGrowingCallFrameStack) SetSp(sp int) {
 		cs.segments[cs.segIdx] = nil
 		cs.segIdx--
 	}
+	if desiredFramesInLastSeg == 0 && cs.segIdx+1 == desiredSegIdx {
+		// sp is a multiple of FramesPerSegment and the segment which would hold frame sp is not allocated (Push
+		// allocates it lazily), so the frames below sp are exactly the full current segment.
+		desiredFramesInLastSeg = FramesPerSegment
+	}
 	cs.segSp = desiredFramesInLastSeg
 }
 
